@@ -94,6 +94,10 @@ def catalog_for(argkind, size):
 VERBOSE = [False]
 
 
+def settings_of(G):
+    return {k: v for k, v in vars(G).items() if not k.startswith('_') and isinstance(v, (int, float, str, bool, type(None)))}
+
+
 def run_op(o, objs, extras):
     f = O.get_fn(o)
     if VERBOSE[0] and o['fn'] is None and o['name'] != 'epsilon_closure':
@@ -166,6 +170,7 @@ def check_op(acc, opname, size, pair_cap, shard, nshard):
                 before = [O.snap(O.base_kind(k), x) for k, x in zip(objkinds, objs)]
                 GambaTools.enable_logging = (logging is True)
                 VERBOSE[0] = (logging is True)
+                settings = settings_of(GambaTools)
                 try:
                     if opname.endswith('[bad]'):
                         try:                      # an ill-formed text: raising is the expected behaviour
@@ -176,6 +181,13 @@ def check_op(acc, opname, size, pair_cap, shard, nshard):
                     else:
                         ok, r = core.lib_call(acc, opname, dict(inst, logging=logging), run_op, o, objs, extras, repro=rp)
                 finally:
+                    now = settings_of(GambaTools)
+                    if now != settings:
+                        # the user's configuration is an implicit argument of every later call
+                        acc.viol(opname, 'the call changed a global setting (GambaTools)', dict(inst, logging=logging), repro=rp,
+                                 observed={k: now.get(k) for k in now if now.get(k) != settings.get(k)}, expected={k: settings.get(k) for k in now if now.get(k) != settings.get(k)})
+                        for k_, v_ in settings.items():
+                            setattr(GambaTools, k_, v_)
                     GambaTools.enable_logging = False
                     VERBOSE[0] = False
                 acc.transitions += 1
